@@ -512,7 +512,8 @@ impl Python {
                         indent = indent,
                         indented_comments = comments
                             .iter()
-                            .map(|v| format!("{}{}", indent, v))
+                            // `"""` inside the text would end the docstring early.
+                            .map(|v| format!("{}{}", indent, v.replace("\"\"\"", "\\\"\\\"\\\"")))
                             .collect::<Vec<String>>()
                             .join("\n"),
                     )
